@@ -16,6 +16,16 @@ if [ "$tier" = thorough ]; then
     if grep -q "\"breaks\": \"$prop\"" "$m"; then demos="$demos $(dirname "$m")/demo_test.go"; fi
   done
 fi
+# open (recorded, not repaired) findings of the property: their demonstrations are expected to FAIL on the current tree;
+# one that passes is only noted (the defect no longer reproduces: the finding line is stale), never an alarm
+for o in $(grep "^finding: property=$prop " known-findings.txt | grep -o 'obligation=external:[A-Za-z0-9_./-]*' | sed 's/^obligation=external://'); do
+  [ -f "$o" ] || continue
+  if REPO=$repo timeout 300 findings/run.sh "$o" . >/dev/null 2>&1; then
+    echo "NOTE: known finding no longer reproduces on this tree: $o"
+  else
+    echo "$prop open finding reproduces on the current tree: $o"
+  fi
+done
 [ -z "$demos" ] && exit 0
 n=0; failed=0
 for d in $demos; do
